@@ -221,7 +221,11 @@ fn rust_rule(r: &yara_x::Rule) -> RuleDump {
         tags: r.tags().map(|t| t.identifier().as_bytes().to_vec()).collect(),
         meta: r.metadata().map(|(k, v)| (k.as_bytes().to_vec(), match v {
             yara_x::MetaValue::Integer(i) => Meta::Int(i), yara_x::MetaValue::Float(f) => Meta::Float(f.to_bits()),
-            yara_x::MetaValue::Bool(b) => Meta::Bool(b), yara_x::MetaValue::String(s) => Meta::Str(s.as_bytes().to_vec()),
+            yara_x::MetaValue::Bool(b) => Meta::Bool(b),
+            // documented conversion of the C API: a string that contains NUL cannot be a C string and is
+            // exposed as YRX_BYTES; every other string must arrive as YRX_STRING
+            yara_x::MetaValue::String(s) if s.as_bytes().contains(&0) => Meta::Bytes(s.as_bytes().to_vec()),
+            yara_x::MetaValue::String(s) => Meta::Str(s.as_bytes().to_vec()),
             yara_x::MetaValue::Bytes(b) => Meta::Bytes(b.to_vec()) })).collect(),
         pats: r.patterns().map(|p| (p.identifier().as_bytes().to_vec(), p.matches().map(|m| (m.range().start, m.range().len())).collect())).collect(),
     }
